@@ -8,6 +8,7 @@ mod frames;
 mod garbage;
 mod ingress;
 mod lowpan;
+mod mcast;
 mod neigh;
 mod tcp;
 mod pbuf;
@@ -70,6 +71,7 @@ fn run_world(world: &str, args: &util::Args) {
         "dns-random" => dns::random(&args),
         "dnsname-replay" => dns::name_replay(&args),
         "pollat-random" => pollat::random(&args),
+        "mcast-replay" => mcast::replay(&args),
         "slaac-random" => slaac::random(&args),
         "slaac-replay" => slaac::replay(&args),
         "tcp-pair" => tcp::pair(&args),
